@@ -16,6 +16,7 @@ import Nitime.Model.C18
 import Nitime.Lemmas.Parseval
 import Nitime.Lemmas.NumReal
 import Nitime.Lemmas.FiltFilt
+import Nitime.Lemmas.C18Sess
 import Mathlib.Algebra.Order.Field.Basic
 import Mathlib.Tactic.Ring
 import Mathlib.Tactic.FieldSimp
@@ -667,5 +668,75 @@ theorem in_ts_rule : C18Opts.inTsRule =
 example : firPlan (10 : Rat) 1 (some 4) 8 40 = .ok (9, some (4/5), some (1/5)) := by decide +kernel
 example : firPlan (10 : Rat) 1 (some 6) 8 40 = .error .valueError := by decide +kernel
 example : restoreDC (mean ([1, 2, 6] : List Rat)) [0, 5, 1] = [1, 6, 2] := by decide +kernel
+
+/-! ### the analyzer as an object with a history (Model/C18Sess.lean, Lemmas/C18Sess.lean)
+
+State = (input, parameters, stored one-time attributes); operations = assign a parameter / `reset()` / read a one-time
+attribute / assign another input.  Discipline of the model (`Sess.step`): `reset()` drops EVERY stored attribute and
+nothing else survives on the object; a read computes purely from (input, parameters) and stores. -/
+section session
+open Sess
+
+/-- for EVERY history of assignments, resets, reads and input changes on one analyzer in which a `reset()` followed the
+last assignment (`dirtyAfter false h = false`), each read equals the read on a NEWLY BUILT analyzer with the current
+input and parameters — for every getter semantics whose parameter writes (`ub None ↦ Fs/2`) change no getter's value -/
+theorem filtered_after_param_history_eq_fresh {I P V : Type} (S : Sem I P V) (hT : TouchInv S) (i0 : I) (p0 : P)
+    (h : List (Op I P)) (hd : dirtyAfter false h = false) (m : Meth) :
+    let s := (run S (fresh i0 p0) h).1
+    (step S s (.read m)).2 = (step S (fresh s.input s.params) (.read m)).2 :=
+  read_clean_eq_fresh S hT i0 p0 h hd m
+
+/-- the explicit shape of the protocol: ANY history, then `reset()`, then any further reads, then the read -/
+theorem filtered_after_reset_and_reads_eq_fresh {I P V : Type} (S : Sem I P V) (hT : TouchInv S) (i0 : I) (p0 : P)
+    (pre reads : List (Op I P)) (hr : ∀ o ∈ reads, ∃ m, o = Op.read m) (m : Meth) :
+    let s := (run S (fresh i0 p0) (pre ++ Op.reset :: reads)).1
+    (step S s (.read m)).2 = some (S.compute m s.input s.params) := by
+  intro s
+  have h := read_clean_eq_fresh S hT i0 p0 (pre ++ Op.reset :: reads) (dirtyAfter_reset_reads false pre reads hr) m
+  simpa [read_fresh] using h
+
+/-- the invariant behind both: with no assignment pending, every STORED attribute is its getter on the current state -/
+theorem stored_attributes_valid {I P V : Type} (S : Sem I P V) (hT : TouchInv S) (i0 : I) (p0 : P)
+    (h : List (Op I P)) (hd : dirtyAfter false h = false) : Valid S (run S (fresh i0 p0) h).1 :=
+  run_inv S hT h _ false (fun _ => valid_fresh S i0 p0) hd
+
+/-- L7: a call that is refused part-way (`filtfilt(b, a, in_ts)` with coefficients scipy refuses / a bad `in_ts`) leaves the
+analyzer exactly as it was; histories containing refused calls are covered by the theorems above (`Op.refused` is an op) -/
+theorem refused_call_leaves_state_unchanged {I P V : Type} (S : Sem I P V) (s : St I P V) :
+    step S s .refused = (s, none) := refused_leaves_state S s
+
+/-- the executable instance (driver op `session`): the parameter write of `filtered_fourier` (`ub None ↦ Fs/2`, whichever
+getter ran) does not change the Fourier filter's value — `TouchInv` for the getter this property's theorems are about
+(for the boxcar `ceil(1/(2·1.0)) = ceil(1/(2·((Fs/2)/Fs)))` is a binary64 fact, compared per run by the session op) -/
+theorem floatSem_touch_fourier (m' : Meth) (i : Float × List Float) (p : Float × Option Float) :
+    floatSem.compute .fourier i (floatSem.touch m' i p) = floatSem.compute .fourier i p := by
+  obtain ⟨lb, ub⟩ := p
+  cases m' <;> cases ub <;> rfl
+
+/-- HYPOTHESIS NEEDED: a transform kept on the object ACROSS reset() and nulled in place (`cstep`): bins [5,1,2,3], read
+with band 1..1, band widened to 1..3, reset(), read → `[5,1,0,0]` (zeros IN band); a new analyzer returns `[5,1,2,3]` -/
+theorem cached_spectrum_nulled_in_place_counterexample :
+    let h : List (Op (List Int) (Nat × Nat)) := [.read .fourier, .setParam (fun _ => (1, 3)), .reset, .read .fourier]
+    (crunWith (cstep binSem) (cfresh [5, 1, 2, 3] (1, 1)) h).2 = [[5, 1, 0, 0], [5, 1, 0, 0]]
+    ∧ specCompute binSem [5, 1, 2, 3] (1, 3) = [5, 1, 2, 3]
+    ∧ dirtyAfter false h = false :=
+  cached_inplace_counterexample
+
+/-- …and why a single read per analyzer or nested (narrowing) bands do not show it -/
+theorem cached_spectrum_narrowing_unaffected :
+    let h : List (Op (List Int) (Nat × Nat)) := [.read .fourier, .setParam (fun _ => (2, 2)), .reset, .read .fourier]
+    (crunWith (cstep binSem) (cfresh [5, 1, 2, 3] (1, 3)) h).2 = [[5, 1, 2, 3], specCompute binSem [5, 1, 2, 3] (2, 2)] :=
+  cached_inplace_narrowing_fine
+
+/-- the same memo with the nulling done on a COPY answers like a new analyzer (input unchanged since it was filled) -/
+theorem cached_spectrum_masked_copy_eq_fresh {I P C V : Type} (F : SpecSem I P C V) (s : CSt I P C V)
+    (hs : ∀ sp, s.spectrum = some sp → sp = F.transform s.input) (m : Meth) :
+    (cstepCopy F { s with cache := none } (.read m)).2 = some (specCompute F s.input s.params) :=
+  (cstepCopy_read_eq_fresh F s hs m).1
+
+/-- non-vacuity: a disciplined history exists and the machine runs it -/
+example : dirtyAfter false ([.read .fourier, .setParam (fun p => (p.1 + 1, p.2)), .reset, .read .boxcar] :
+    List (Op Nat (Nat × Nat))) = false := by decide
+end session
 
 end Nitime.C18.Props
